@@ -40,6 +40,15 @@ func (e Ev) MarshalJSON() ([]byte, error) {
 }
 
 var hkinds = []string{"sync", "async", "once", "seq", "filtered", "panic", "async-panic", "async-seq", "async-seq-ctx", "seq-ctx"}
+
+// xkinds are handler kinds that combine options; they are not part of the enumerated lists
+// (nBase kinds), but of the curated workloads at the end of workloads(). The filters accept
+// the second publish only, so each of them both rejects and accepts an event.
+var xkinds = []string{"filtered-seq", "filtered-async", "filtered-async-seq", "filtered-once", "filtered-seq-ctx", "once-async", "once-seq", "once-async-seq"}
+var nBase = len(hkinds)
+
+func init() { hkinds = append(hkinds, xkinds...) }
+
 var pmodes = []string{"none", "ok", "fail", "unencodable", "timeout"}
 
 type workload struct {
@@ -219,6 +228,7 @@ func (in *inst) Body() {
 	for i, k := range w.H {
 		i := i
 		body := func(e Ev) { in.rec.Add("enter", i, e.ID, "") }
+		second := func(e Ev) bool { return e.ID == pubIDs[len(pubIDs)-1] }
 		switch hkinds[k] {
 		case "sync":
 			eventbus.Subscribe(bus, body)
@@ -244,6 +254,25 @@ func (in *inst) Body() {
 				in.rec.Add("hctx", tokOf(ctx, "handler"), e.ID, "")
 				vrt.Point()
 			}, eventbus.Async(), eventbus.Sequential())
+		case "filtered-seq":
+			eventbus.Subscribe(bus, body, eventbus.Sequential(), eventbus.WithFilter(second))
+		case "filtered-async":
+			eventbus.Subscribe(bus, body, eventbus.WithFilter(second), eventbus.Async())
+		case "filtered-async-seq":
+			eventbus.Subscribe(bus, body, eventbus.Async(), eventbus.Sequential(), eventbus.WithFilter(second))
+		case "filtered-once":
+			eventbus.Subscribe(bus, body, eventbus.Once(), eventbus.WithFilter(second))
+		case "filtered-seq-ctx":
+			eventbus.SubscribeContext(bus, func(ctx context.Context, e Ev) {
+				in.rec.Add("enter", i, e.ID, "")
+				in.rec.Add("hctx", tokOf(ctx, "handler"), e.ID, "")
+			}, eventbus.WithFilter(second), eventbus.Sequential())
+		case "once-async":
+			eventbus.Subscribe(bus, body, eventbus.Once(), eventbus.Async())
+		case "once-seq":
+			eventbus.Subscribe(bus, body, eventbus.Sequential(), eventbus.Once())
+		case "once-async-seq":
+			eventbus.Subscribe(bus, body, eventbus.Once(), eventbus.Async(), eventbus.Sequential())
 		case "seq-ctx":
 			eventbus.SubscribeContext(bus, func(ctx context.Context, e Ev) {
 				in.rec.Add("enter", i, e.ID, "")
@@ -479,7 +508,7 @@ func workloads(thorough bool) []workload {
 		if len(cur) == maxLen {
 			return
 		}
-		for k := range hkinds {
+		for k := 0; k < nBase; k++ {
 			rec(append(cur, k))
 		}
 	}
@@ -489,6 +518,18 @@ func workloads(thorough bool) []workload {
 		for _, obs := range []int{0, 1} {
 			l = append(l, workload{H: hs, Observer: obs})
 			l = append(l, workload{H: hs, Observer: obs, TwoPublishers: true})
+		}
+	}
+	// handlers that combine options (a filter that rejects the first publish and accepts the
+	// second; Once with Async / Sequential): alone and after a synchronous handler
+	for x := range xkinds {
+		for _, hs := range [][]int{{nBase + x}, {0, nBase + x}} {
+			for _, cn := range []bool{false, true} {
+				for _, obs := range []int{0, 1} {
+					l = append(l, workload{H: hs, Cancel: cn, Observer: obs})
+				}
+			}
+			l = append(l, workload{H: hs, Persist: 1, Observer: 0}, workload{H: hs, Observer: 0, TwoPublishers: true})
 		}
 	}
 	// cancellation racing the dispatch of asynchronous invocations
@@ -519,7 +560,7 @@ func run(c *h.Check) {
 		}
 		maxE := 500
 		for _, k := range w.H {
-			if strings.HasPrefix(hkinds[k], "async-seq") {
+			if strings.Contains(hkinds[k], "async-seq") {
 				maxE = 50000
 			}
 		}
